@@ -120,6 +120,11 @@ class Fn:
             return "(match %s with | none => %s | some %s => %s)" % (x, self.E(a), x, self.E(b))
         if isinstance(e, ast.IfExp):
             return "(if %s then %s else %s)" % (self.T(e.test), self.E(e.body), self.E(e.orelse))
+        if isinstance(e, (ast.GeneratorExp, ast.ListComp)) and len(e.generators) == 1 and len(e.generators[0].ifs) == 1 \
+                and isinstance(e.generators[0].target, ast.Tuple) and all(isinstance(x, ast.Name) for x in e.generators[0].target.elts):
+            g = e.generators[0]
+            pat = "(%s)" % ", ".join(lean_name(x.id) for x in g.target.elts)
+            return "((%s).filter (fun %s => %s)).map (fun %s => %s)" % (self.E(g.iter), pat, self.T(g.ifs[0]), pat, self.E(e.elt))
         if isinstance(e, ast.ListComp) and len(e.generators) == 1 and not e.generators[0].ifs and isinstance(e.generators[0].target, ast.Name) \
                 and "list_map" in self.cfg:
             g = e.generators[0]
@@ -584,6 +589,11 @@ FUNCS = [
                      ("range(len(A))", "List.range (List.length {A})"),
                      ("A[:B]", "List.take {B} {A}"),
                      ("A + '0'", "({A} ++ [false])"), ("A + '1'", "({A} ++ [true])")]),
+    dict(module="netconan/ip_anonymization.py", qual="_BaseIpAnonymizer.dump_to_file", name="dump_to_file",
+         sig="(L : Nat) (c : IpCore.Cache) : List (Nat × Nat)", run="Id.run ", fallthrough="pure file_out", always_live=("file_out",),
+         prelude=[("file_out", "let file_out : List (Nat × Nat) := []")],
+         expr_rules=[("self.cache.items()", "c"), ("len(A) == self.length", "(List.length {A} == L)"), ("self._ip_to_str(A)", "IpCore.ofBits {A}")],
+         stmt_rules=[("file_out.write('{}\\t{}\\n'.format(ip, anon))", "let file_out := file_out ++ [(ip, anon)]", ["file_out"])]),
     dict(module="netconan/ip_anonymization.py", qual="IpAnonymizer.should_anonymize", name="should_anonymize",
          sig="(nets : List Mask.Net) (ip_int : Nat) : Bool", run="Id.run ",
          expr_rules=[("ipaddress.ip_address(A)", "{A}"), ("self._is_mask(A)", "is_mask {A}"),
@@ -758,7 +768,7 @@ FUNCS.append(
 GROUPS = {
     "SrcIp": dict(imports=["Netconan.Model.Py", "Netconan.Model.Mask", "Netconan.Model.IpText", "Netconan.Model.PyRegex"],
                   serves=["C01", "C02", "C03", "C04", "C05", "C06", "C17", "C12", "C13", "C14", "C15"],
-                  funcs=["is_mask", "anonymize_bits", "deanonymize_bits", "anonymize", "deanonymize", "seed_loop", "should_anonymize", "should_anonymize6", "anonymize_match", "anonymize_ip_addr"]),
+                  funcs=["is_mask", "anonymize_bits", "deanonymize_bits", "anonymize", "deanonymize", "seed_loop", "dump_to_file", "should_anonymize", "should_anonymize6", "anonymize_match", "anonymize_ip_addr"]),
     "SrcSecrets": dict(imports=["Netconan.Model.PySecrets"], serves=["C07", "C08", "C09", "C12", "C13", "C14", "C15"],
                        funcs=["check_sensitive_item_format", "extract_enclosing_text", "anonymize_value", "replace_matching_item"]),
     "SrcAs": dict(imports=["Netconan.Model.Py", "Netconan.Model.Words"], serves=["C11"],
